@@ -62,6 +62,7 @@ class ParsersWorld:
         self.parse_from_file = parse_from_file
         self.modes = sorted(dialect_by_name)
         seams.install_parser_seams()
+        seams.install_file_seams()       # now, not lazily inside a run: the global-state probe must not see the harness
         import ply
         self.trace_prefixes = (os.path.join(os.path.abspath(tree), "simple_ddl_parser") + os.sep,
                                os.path.dirname(os.path.abspath(ply.__file__)) + os.sep)
@@ -170,7 +171,8 @@ class ParsersWorld:
                                            "dump_fault_fired": 0, "reruns": 0, "mode_changes": 0,
                                            "after_fault_checks": 0, "stmts": 0, "cancel_in_multi": 0,
                                            "objects": 0, "exc_outcomes": 0, "refs_other_hashseed": 0,
-                                           "global_state_changed": 0, "victims_run": 0},
+                                           "global_state_changed": 0, "victims_run": 0, "reflag_objects": 0, "followup_objects": 0,
+                                           "marathon_runs": 1 if (trace.get("swarm") or {}).get("marathon") else 0},
               "kinds": []}
         chooser = sched.ListChooser([])
         S = sched.Scheduler(chooser, labels=(), trace_prefixes=self.trace_prefixes if need_trace else None,
@@ -229,6 +231,11 @@ class ParsersWorld:
                 cur = {"ddl": op["ddl"], "flags": dict(op["flags"])}
                 prev_kw = None
                 stats["objects"] += 1
+                src = op.get("src") or ""
+                if src.endswith("+reflag"):
+                    stats["reflag_objects"] += 1
+                elif src.startswith("gen:followup"):
+                    stats["followup_objects"] += 1
                 try:
                     obj = self.DDLParser(cur["ddl"], **cur["flags"])
                     outcome = ["constructed"]
@@ -642,7 +649,12 @@ class ParsersWorld:
                 st["violations"].append({"oracle": "isolation", "task": i, "obj": oi, "run": j,
                                          "expected": core.short(expected, 600), "observed": core.short(out, 600),
                                          "diff": core.first_diff(expected, out)})
-        st["stats"].update({"switches": S.switches, "label_points": S.label_points, "line_points": S.line_points})
+        st["stats"].update({"switches": S.switches, "label_points": S.label_points, "line_points": S.line_points,
+                            "marathon_runs": 1 if swarm.get("marathon") else 0, "gran_" + gran: 1,
+                            "same_text_tasks": sum(1 for t in trace["tasks"] if (t.get("src") or "").endswith("+same")),
+                            "followup_tasks": sum(1 for t in trace["tasks"] if (t.get("src") or "").startswith("gen:followup"))})
+        if gran == "L":
+            st["stats"]["focus_" + str(swarm.get("focus"))] = 1
         ytrace = hashlib.sha1(repr(S.yield_trace).encode()).hexdigest()[:16] if gran != "L" else \
             hashlib.sha1(repr([(a, b) for a, b, c in chooser.recorded][:40] + [len(chooser.recorded)]).encode()).hexdigest()[:16]
         st["kinds"] = [gran, ytrace]
@@ -690,6 +702,8 @@ class ParsersWorld:
                "digest": log.digest(), "ops_digest": log.ops_digest(), "stats": st["stats"],
                "kinds": st["kinds"], "trace": trace, "nevents": log.seq,
                "ref_hashseed": self.ref_x.hashseed if self.ref_x is not None else None}
+        if log.events is not None:
+            res["events"] = log.events
         if extra:
             res.update(extra)
         return res
